@@ -42,38 +42,57 @@ MANIFEST = {
 # robust batched execution in the simulator (same scheme as c38: a hang or an exception escaping an
 # MPyC coroutine leaves the party PENDING; the batch is resumed after the offending case)
 
+ARITY = 4
+
+
 class Watchdog(Exception):
     pass
 
 
+ROUNDS_PER_CASE = 100000     # simulator rounds (event-loop spins + delivery calls) without a completed case => hang;
+                             # load-independent; ordinary cases need < 6000 rounds (maximum observed is recorded in evidence)
+ROUND_STATS = {'max_rounds_per_case': 0}
+
+
 class WatchedFifo:
-    def __init__(self, per_case_s, errs):
+    """FIFO delivery; raises Watchdog when no case has completed for ROUNDS_PER_CASE simulator rounds (a deterministic
+    measure: one round = one spin of the event loop plus one delivery call), or at once when an exception escaped an
+    MPyC coroutine (the current case can then never complete)."""
+
+    def __init__(self, errs, limit=None):
         from lib.sim import Fifo
         self.fifo = Fifo()
-        self.per_case_s = per_case_s
         self.errs = errs
-        self.last = time.time()
+        self.limit = limit or ROUNDS_PER_CASE
         self.n = 0
+        self.last_n = 0
 
     def tick(self):
-        self.last = time.time()
+        d = self.n - self.last_n
+        if d > ROUND_STATS['max_rounds_per_case']:
+            ROUND_STATS['max_rounds_per_case'] = d
+        self.last_n = self.n
 
     def deliver(self, net):
         self.n += 1
         if self.errs and any('CancelledError' not in e and 'InvalidState' not in e for e in self.errs):
             raise Watchdog()
-        if self.n % 64 == 0 and time.time() - self.last > self.per_case_s:
+        if self.n - self.last_n > self.limit:
             raise Watchdog()
         return self.fifo.deliver(net)
 
 
-def run_cases(ctx, m, t, no_prss, cases, case_coro, seed, per_case_s=8.0):
+def run_batch(ctx, m, t, no_prss, cases, case_coro, seed, want_log=False, arity3=ARITY):
+    """One pass: cases run in order in one simulator; at the first case that does not complete (hang / escaped
+    exception) that simulator is discarded and the rest continues in a fresh one."""
     from lib.sim import Sim
     results = [None] * len(cases)
+    logs = []
+    incomplete = []
     i = 0
     restarts = 0
     while i < len(cases):
-        sim = Sim(m, t, no_prss=no_prss, seed=seed, track_tasks=False, log_messages=False)
+        sim = Sim(m, t, no_prss=no_prss, seed=seed, track_tasks=False, log_messages=want_log)
         errs = []
         sim.loop.set_exception_handler(lambda loop, c: errs.append(repr(c.get('exception'))[:200]))
         try:
@@ -82,22 +101,26 @@ def run_cases(ctx, m, t, no_prss, cases, case_coro, seed, per_case_s=8.0):
                 raise RuntimeError('simulator start failed')
             prog_res = [[None] * len(cases) for _ in range(m)]
             start = i
-            pol = WatchedFifo(per_case_s, errs)
+            pol = WatchedFifo(errs)
 
             async def prog(mpc, mods, pid, start=start, prog_res=prog_res, pol=pol):
+                state = {}
                 for j in range(start, len(cases)):
                     try:
-                        r = await case_coro(mpc, mods, pid, cases[j])
-                    except Exception as e:
-                        r = ('EXC', type(e).__name__, str(e)[:120])
+                        r = await (case_coro(mpc, mods, pid, state, cases[j]) if arity3 == 5 else case_coro(mpc, mods, pid, cases[j]))
+                    except Exception as e:  # synchronous exceptions (asserts, TypeError ...)
+                        r = ('EXC', type(e).__name__)
                     prog_res[pid][j] = ('ok', r)
-                    pol.tick()
+                    if pid == m - 1 or m == 1:
+                        pol.tick()
                 return True
             try:
-                sim.run(prog, pol, idle_limit=20000 if m > 1 else 10**12)
-                timed_out = False
+                sim.run(prog, pol, idle_limit=50000 if m > 1 else 10**15, max_rounds=10**15)
+                stopped = 'idle'
             except Watchdog:
-                timed_out = True
+                stopped = 'rounds'
+            if want_log:
+                logs.append([[(d, peer, size) for (d, peer, pc, size) in sim.msglog[k]] for k in range(m)])
             done = True
             for j in range(start, len(cases)):
                 col = [prog_res[k][j] for k in range(m)]
@@ -107,12 +130,13 @@ def run_cases(ctx, m, t, no_prss, cases, case_coro, seed, per_case_s=8.0):
                     i = j + 1
                 else:
                     exc = [e for e in errs if 'CancelledError' not in e and 'InvalidState' not in e]
-                    results[j] = ('EXC', exc[0].split('(')[0], exc[0][:120]) if exc else ('HANG', 'watchdog' if timed_out else 'idle')
+                    results[j] = ('EXC', exc[0].split('(')[0]) if exc else ('HANG', stopped)
+                    incomplete.append(j)
                     i = j + 1
                     done = False
                     restarts += 1
                     break
-            if done and not timed_out:
+            if done:
                 try:
                     sim.shutdown()
                 except Exception:
@@ -120,7 +144,28 @@ def run_cases(ctx, m, t, no_prss, cases, case_coro, seed, per_case_s=8.0):
         finally:
             sim.close()
     ctx.extra['sim_restarts'] = ctx.extra.get('sim_restarts', 0) + restarts
-    return results
+    return results, logs, incomplete
+
+
+def run_cases(ctx, m, t, no_prss, cases, case_coro, seed, want_log=False, isolated=()):
+    """cases: list of JSON-able case descriptions.  Returns per-case results: value | ('EXC', name) | ('HANG', how) |
+    ('DIVERGE', per-party values).  Cases whose index is in `isolated` (predicted not to terminate) run alone in their own
+    simulator.  Every case that did not complete (HANG / escaped EXC) in a shared simulator is re-run once alone in a
+    fresh simulator and the outcome of that isolated run is what is reported."""
+    isolated = set(isolated)
+    shared = [j for j in range(len(cases)) if j not in isolated]
+    results = [None] * len(cases)
+    res, logs, inc = run_batch(ctx, m, t, no_prss, [cases[j] for j in shared], case_coro, seed, want_log)
+    for j, r in zip(shared, res):
+        results[j] = r
+    redo = [] if want_log else [shared[q] for q in inc] + [j for j in shared if isinstance(results[j], tuple) and results[j][:1] == ('DIVERGE',)]
+    for j in sorted(isolated) + redo:
+        results[j] = run_batch(ctx, m, t, no_prss, [cases[j]], case_coro, seed)[0][0]
+    if redo:
+        ctx.extra['cases_rerun_in_isolation'] = ctx.extra.get('cases_rerun_in_isolation', 0) + len(redo)
+    ctx.extra['max_rounds_per_case'] = ROUND_STATS['max_rounds_per_case']
+    ctx.extra['hang_limit_rounds'] = ROUNDS_PER_CASE
+    return (results, logs) if want_log else results
 
 
 # ------------------------------------------------------------------------------------------------
